@@ -115,36 +115,35 @@ def showExc {α : Type} (f : α → String) : Except E α → String
   | .ok a => "ok:" ++ f a
   | .error e => "err:" ++ showErr e
 
-structure St where
-  bundles : Bs
-  errors : List E
-
-/-- `none` = malformed op; `some (.panic …)` = the request panicked -/
-def step (s : St) (op : String) : Option (Outcome (St × String)) :=
-  let fin {ρ : Type} (sh : ρ → String) (o : Reply ρ String String A String String String String) :
-      Option (Outcome (St × String)) :=
-    some (o.map fun (r, es, b) =>
-      ({ bundles := b, errors := es },
-        sh r ++ "|E" ++ showList showErr (es.drop s.errors.length) ++ "|g" ++ toString b.cache.pulled))
+def parseReq (op : String) : Option (Request String A) :=
   match op.splitOn ":" with
-  | ["clr"] => some (.done ({ s with errors := [] }, "ok"))
-  | ["v", k] => (parseKey k).bind fun k => fin showVal (s.bundles.formatValue k.id k.args s.errors)
-  | ["vs", k] => (parseKey k).bind fun k => fin (showExc showVal) (s.bundles.formatValueSync k.id k.args s.errors)
-  | ["vv", ks] => (parseKeys ks).bind fun ks => fin (showList showVal) (s.bundles.formatValues ks s.errors)
-  | ["vvs", ks] =>
-    (parseKeys ks).bind fun ks => fin (showExc (showList showVal)) (s.bundles.formatValuesSync ks s.errors)
-  | ["mm", ks] => (parseKeys ks).bind fun ks => fin (showList showMsg) (s.bundles.formatMessages ks s.errors)
-  | ["mms", ks] =>
-    (parseKeys ks).bind fun ks => fin (showExc (showList showMsg)) (s.bundles.formatMessagesSync ks s.errors)
+  | ["clr"] => some .clear
+  | ["v", k] => (parseKey k).map .value
+  | ["vs", k] => (parseKey k).map .valueSync
+  | ["vv", ks] => (parseKeys ks).map .values
+  | ["vvs", ks] => (parseKeys ks).map .valuesSync
+  | ["mm", ks] => (parseKeys ks).map .messages
+  | ["mms", ks] => (parseKeys ks).map .messagesSync
   | _ => none
 
-def runOps : List String → St → List String → String
-  | [], _, outs => ";".intercalate outs.reverse
-  | op :: ops, s, outs =>
-    match step s op with
-    | none => runOps ops s ("bad-op" :: outs)
-    | some (.panic site) => "PANIC " ++ site
-    | some (.done (s', o)) => runOps ops s' (o :: outs)
+def showResp : Response String String String String String String → String
+  | .value r => showVal r
+  | .valueSync r => showExc showVal r
+  | .values r => showList showVal r
+  | .valuesSync r => showExc (showList showVal) r
+  | .messages r => showList showMsg r
+  | .messagesSync r => showExc (showList showMsg) r
+  | .cleared => "ok"
+
+/-- print the trace of `Bundles.run`: per request the response, the errors it pushed, the number of
+bundles generated so far -/
+def showTrace : List (Response String String String String String String × List E × Bs) → Nat → List String
+  | [], _ => []
+  | (r, es, b) :: rest, nBefore =>
+    (match r with
+     | .cleared => "ok"
+     | r => showResp r ++ "|E" ++ showList showErr (es.drop nBefore) ++ "|g" ++ toString b.cache.pulled)
+      :: showTrace rest es.length
 
 def run (payload : String) : String :=
   match payload.splitOn ";" with
@@ -152,9 +151,12 @@ def run (payload : String) : String :=
     let sync? := if cfg == "cfg:s" then some true else if cfg == "cfg:a" then some false else none
     let bsegs := rest.takeWhile (·.startsWith "b:")
     let ops := rest.dropWhile (·.startsWith "b:")
-    match sync?, bsegs.mapM parseBundle with
-    | some sync, some brs => runOps ops { bundles := Bundles.new sync brs, errors := [] } []
-    | _, _ => "bad-case"
+    match sync?, bsegs.mapM parseBundle, ops.mapM parseReq with
+    | some sync, some brs, some reqs =>
+      match (Bundles.new sync brs).run [] reqs with
+      | .done trace => ";".intercalate (showTrace trace 0)
+      | .panic site => "PANIC " ++ site
+    | _, _, _ => "bad-case"
   | [] => "bad-case"
 
 end FluentModel.Drv.FbDrv
